@@ -62,6 +62,7 @@ class Emitter:
         self.replace = {}
         self.typeinfo_ids = {}
         self.extra_protos = {}
+        self.global_fwd = []
 
     # ------------------------------------------------------------------ scaling
     def nb(self, n):
@@ -84,8 +85,8 @@ class Emitter:
             for d in (-2, -1, 0, 1, 2):
                 table[(1 << fw) + d] = (1 << tw) + d
                 table[-(1 << fw) + d] = -(1 << tw) + d
-        lim = 1 << (self.scale - 2)   # small literals stay (|c| < 2^(W-2))
-        if -lim <= sv <= lim:
+        lim = 1 << (self.scale - 1)   # literals that fit the scaled signed range stay as they are
+        if -lim <= sv <= lim - 1:
             r = sv
         elif sv in table:
             r = table[sv]
@@ -471,10 +472,8 @@ class Emitter:
             return self.wrap(n, 'ir2c_s%s_%d(%s, %s)' % ('div' if op == 'sdiv' else 'rem', int_store_bits(n), self.sx(n, a), self.sx(n, b)))
         if op in ('shl', 'lshr', 'ashr'):
             amt = b
-            if self.scale and w != n and bval is not None and bval[0] == 'int':
-                amt = self.int_lit(n, self.scale_shift_const(n, bval[1]))
-            elif self.scale and w != n:
-                amt = b
+            if b is None:
+                amt = self.int_lit(n, self.scale_shift_const(n, bval[1]) if w != n else bval[1])
             if op == 'shl':
                 e = '(%s < %d ? (%s)%s << %s : 0)' % (amt, w, W, a, amt)
                 return self.wrap(n, e)
@@ -732,7 +731,11 @@ class Emitter:
         if op == 'phi':
             return
         if op in BINOPS:
-            body.append('%s = %s;' % (res, self.bin_expr(op, I['type'], self.cv(I['type'], I['a']), self.cv(I['type'], I['b']), I['b'])))
+            if op in ('shl', 'lshr', 'ashr') and I['b'][0] == 'int' and self.scale:
+                bexp = None     # constant shift amounts are rescaled inside bin_expr
+            else:
+                bexp = self.cv(I['type'], I['b'])
+            body.append('%s = %s;' % (res, self.bin_expr(op, I['type'], self.cv(I['type'], I['a']), bexp, I['b'])))
             return
         if op == 'fneg':
             body.append('%s = -%s;' % (res, self.cv(I['type'], I['a'])))
@@ -965,6 +968,11 @@ class Emitter:
                 body.append('%s(%s);' % (cname, c))
             self.after_call(I, label, body, False)
             return
+        if cname in ('nondet_u8', 'nondet_u16', 'nondet_u32', 'nondet_u64'):
+            w = cname[8:]
+            body.append('ir2c_in_u%s = %s(); %s = ir2c_in_u%s;' % (w, cname, res if res else 'ir2c_in_u' + w, w))
+            self.after_call(I, label, body, False)
+            return
         argv = [self.cv(t, v) for (t, v, a) in args]
         may_throw = True
         if cname and cname in self.m.functions:
@@ -997,10 +1005,10 @@ class Emitter:
                 if rep in self.m.functions:
                     rf = self.m.functions[rep]
                     # cast args to the stub's parameter types when they differ
-                    if len(rf.params) != len(args):
+                    if len(rf.params) != len(args) and not (rf.vararg and len(args) >= len(rf.params)):
                         raise IRError('stub %s arity differs from %s' % (rep, cname))
                     argv = ['((%s)%s)' % (self.ct(pt), a) if self.ct(pt) != self.ct(at) else a
-                            for a, (pt, _, _), (at, _, _) in zip(argv, rf.params, args)]
+                            for a, (pt, _, _), (at, _, _) in zip(argv, rf.params, args)] + argv[len(rf.params):]
                     call = '%s(%s)' % (self.fname(rep), ', '.join(argv))
                     if res is not None and self.ct(rf.ret) != self.ct(I['type']):
                         if self.resolve(rf.ret)[0] in ('struct',):
@@ -1054,7 +1062,7 @@ class Emitter:
     def havoc_of(self, t):
         r = self.resolve(t)
         if r[0] == 'int':
-            return self.wrap(r[1], 'ir2c_nondet_u%d()' % int_store_bits(r[1])) if r[1] > 1 else '((uint8_t)(ir2c_nondet_u8() & 1))'
+            return self.wrap(r[1], '(ir2c_in_u%d = nondet_u%d())' % (int_store_bits(r[1]), int_store_bits(r[1]))) if r[1] > 1 else '((uint8_t)((ir2c_in_u8 = nondet_u8()) & 1))'
         if r[0] == 'ptr':
             raise IRError('!havoc of pointer-returning function')
         raise IRError('!havoc of %r' % (r,))
@@ -1192,6 +1200,8 @@ class Emitter:
             return ('extern', 'extern %s %s;' % (self.ct(g.type, True), cn))
         init = global_init(g)
         tl = '__thread ' if g.thread_local else ''
+        fwd = 'extern %s%s %s;\n' % (tl, self.ct(g.type, True), cn)
+        self.global_fwd.append(fwd)
         if init[0] in ('zero', 'undef'):
             return ('def', '%s%s %s;' % (tl, self.ct(g.type, True), cn))
         return ('def', '%s%s %s = %s;' % (tl, self.ct(g.type, True), cn, self.cv(g.type, init, True)))
@@ -1286,7 +1296,7 @@ def run(a):
     em.replace = build_replace(mod, spec)
     rt_provided = set(spec.get('rt_provided', []))
     rtdir = os.path.join(os.path.dirname(os.path.dirname(os.path.abspath(__file__))), 'rt')
-    c_includes = ['ir2c_rt_impl.c'] + spec.get('c_include', [])
+    c_includes = ['ir2c_rt_impl.c', 'libstdcxx.c'] + spec.get('c_include', [])
     for ci in c_includes:
         pth = ci if os.path.isabs(ci) else os.path.join(rtdir, ci)
         if not os.path.exists(pth) and a.spec:
@@ -1315,7 +1325,10 @@ def run(a):
                 if not name.startswith('llvm.'):
                     undefined.append(name)
                 continue
-            func_text.append(em.emit_function(f))
+            try:
+                func_text.append(em.emit_function(f))
+            except IRError as e:
+                raise IRError('%s\n   in function %s' % (e, name))
             real_bodies.append(name)
         while gi < len(em.used_globals):
             name = em.used_globals[gi]
@@ -1380,8 +1393,14 @@ def run(a):
     # anything newly forward declared during later emission is already in em.forward (same list)
     out.extend(rtti_defs)
     out.extend(protos)
+    out.extend(x.rstrip() for x in em.global_fwd)
     out.extend(gdefs)
     out.extend(func_text)
+    for n in undefined:
+        out.append('#define IR2C_NEED_%s 1' % sanitize(n))
+    for n in em.used_globals:
+        if mod.globals[n].external:
+            out.append('#define IR2C_NEEDG_%s 1' % sanitize(n))
     for ci in c_include_paths:
         out.append('#include "%s"' % ci)
     with open(a.o, 'w') as fh:
